@@ -19,6 +19,10 @@ WANT_PROBES = ["construct_completed", "construct_assigned", "construct_dup", "il
 def make(family, rng, tier):
     if family == "ex":
         return exgen.gen(rng, "C02", tier)
+    if family == "exsus":
+        # suspension-heavy command streams (several containers of one pipeline writing out at once): the states of
+        # operators parked in containers are where lifecycle bookkeeping goes wrong quietly
+        return exgen.gen(rng, "C10", tier)
     if family == "walk":
         return walks.gen_walk(rng)
     if family == "chaos":
@@ -32,7 +36,7 @@ def make(family, rng, tier):
 
 def plan(tier):
     q = tier == "quick"
-    return [("walk", 6000 if q else 300000), ("ex", 3000 if q else 50000), ("sys", 3000 if q else 60000),
+    return [("walk", 6000 if q else 300000), ("ex", 3000 if q else 50000), ("exsus", 2500 if q else 40000), ("sys", 3000 if q else 60000),
             ("chaos", 1000 if q else 20000)]
 
 
